@@ -971,6 +971,7 @@ class Config:  # pylint: disable=too-many-instance-attributes
         self._fields: Dict[str, BaseField] = OrderedDict()
         self._key = schema._key
         self.__keyfile = None  # type: Optional[KeyFile]
+        self.__default_keyfile = None  # type: Optional[KeyFile]
         self._default_value_keys: Set[str] = set()
 
         if key_filename:
@@ -1018,7 +1019,11 @@ class Config:  # pylint: disable=too-many-instance-attributes
                 # This will bubble up to the root config. Not cached here: an ancestor may be given
                 # a (different) key file later and this config must follow it.
                 return self._parent._keyfile
-            self.__keyfile = KeyFile(Config.DEFAULT_CINCOKEY_FILEPATH)
+            # Kept apart from a key file that was named for this config: a stand-alone config that
+            # is attached to a parent later follows the parent's key file from then on.
+            if self.__default_keyfile is None:
+                self.__default_keyfile = KeyFile(Config.DEFAULT_CINCOKEY_FILEPATH)
+            return self.__default_keyfile
         return self.__keyfile
 
     def _get_field(self, key: str) -> Optional[BaseField]:
